@@ -44,15 +44,50 @@ theorem src_maps_cover_bytes :
     ([userinfoMap, pathMap, queryMap, fragmentMap].all fun m => m.length == 256) = true := by
   decide +kernel
 
+/-! ## loops that append -/
+
+/-- a loop that only appends chunks computes, once joined, the concatenation of the chunks -/
+theorem src_foldl_chunks {α : Type} (g : α → List Bytes) (body : List Bytes → α → List Bytes)
+    (h : ∀ res item, body res item = res ++ g item) :
+    ∀ (l : List α) (res : List Bytes),
+      PyRtC06.joinEmpty (l.foldl body res) = res.flatten ++ l.flatMap (fun i => (g i).flatten) := by
+  intro l
+  induction l with
+  | nil => intro res; simp [PyRtC06.joinEmpty]
+  | cons x r ih => intro res; simp [List.foldl_cons, ih, h, List.flatMap_cons]
+
+/-- the same with the chunks read off the body itself (`body [] item`): usable without knowing the loop -/
+theorem src_foldl_join {α : Type} (body : List Bytes → α → List Bytes)
+    (h : ∀ res item, body res item = res ++ body [] item) :
+    ∀ (l : List α) (res : List Bytes),
+      PyRtC06.joinEmpty (l.foldl body res) = res.flatten ++ l.flatMap (fun i => (body [] i).flatten) :=
+  src_foldl_chunks (fun i => body [] i) body h
+
 /-! ## the tie theorems -/
 
 /-- both sides are decided by `full_quote`: case split first, so that the order of the two branches in the source
-    (`if full_quote:` / `if not full_quote:`, early return or `else`) does not matter -/
+    (`if full_quote:` / `if not full_quote:`, early return or `else`) does not matter; a comprehension is a `map`
+    (`rt_join_map`), an explicit loop with `append` is rewritten by `src_foldl_join` (its shape condition is a side goal) -/
 local macro "quote_tie" b:ident : tactic => `(tactic|
   (cases $b:ident <;>
    simp only [quotePart, quoteFull, quoteMin, Comp.map, Comp.delims, rt_utf8_eq, rt_mapGet_eq, rt_join_map,
      Bool.not_true, Bool.not_false, Bool.false_eq_true, if_true, if_false, ↓reduceIte] <;>
-   try rfl))
+   first
+    | done
+    | rfl
+    | (rw [src_foldl_join]
+       · simp only [List.flatten_nil, List.nil_append, List.flatten_cons, List.append_nil]
+         first
+          | done
+          | rfl
+          | (congr 1; funext t; split <;> simp_all)
+       · intro res item
+         simp only [List.nil_append]
+         first
+          | done
+          | rfl
+          | (split <;> rfl)
+          | simp_all)))
 
 theorem src_quote_path_part_eq_model (nfc : Text → Text) (text : Text) (full : Bool) :
     Src.urlutils.quote_path_part nfc text full = quotePart .path nfc full text := by
@@ -95,16 +130,6 @@ def unqChunks (item : Bytes) : List Bytes :=
   match PyRtC06.hexGet hexMap (item.take 2) with
   | some v => [v, item.drop 2]
   | none => [[37], item]
-
-/-- a loop that only appends chunks computes, once joined, the concatenation of the chunks -/
-theorem src_foldl_chunks {α : Type} (g : α → List Bytes) (body : List Bytes → α → List Bytes)
-    (h : ∀ res item, body res item = res ++ g item) :
-    ∀ (l : List α) (res : List Bytes),
-      PyRtC06.joinEmpty (l.foldl body res) = res.flatten ++ l.flatMap (fun i => (g i).flatten) := by
-  intro l
-  induction l with
-  | nil => intro res; simp [PyRtC06.joinEmpty]
-  | cons x r ih => intro res; simp [List.foldl_cons, ih, h, List.flatMap_cons]
 
 def pieceHd (l : Bytes) : Bytes := (PyRtC06.splitOn 37 l).headD []
 def pieceTl (l : Bytes) : List Bytes := (PyRtC06.splitOn 37 l).drop 1
